@@ -1,5 +1,5 @@
 // auto-generated: "lalrpop 0.23.1"
-// sha3: c47246f46a4a129003a0291bb1814e02d709acf50bff68dcd32c4d138b10e3f5
+// sha3: e00ad9a6df3bb9459e46a303f50da0213d349d4eeeca99b36dd1738c05e6483a
 use crate::rt::*;
 #[allow(unused_extern_crates)]
 extern crate lalrpop_util as __lalrpop_util;
@@ -607,14 +607,13 @@ fn __action0<
 fn __action1<
 >(
     (_, l, _): (i64, i64, i64),
-    (_, pR0, _): (i64, i64, i64),
     (_, c0, _): (i64, Tree, i64),
     (_, c1, _): (i64, Tok, i64),
     (_, c2, _): (i64, Tree, i64),
     (_, r, _): (i64, i64, i64),
 ) -> Result<Tree,__lalrpop_util::ParseError<i64,Tok,u64>>
 {
-    { probe("S#0", 0, 'R', pR0); fallible("S#0", l, r, vec![Tree::from(c0), Tree::from(c1), Tree::from(c2)]) }
+    fallible("S#0", l, r, vec![Tree::from(c0), Tree::from(c1), Tree::from(c2)])
 }
 
 #[allow(clippy::too_many_arguments, clippy::needless_lifetimes, clippy::just_underscores_and_digits, clippy::extra_unused_type_parameters)]
@@ -632,12 +631,11 @@ fn __action2<
 fn __action3<
 >(
     (_, l, _): (i64, i64, i64),
-    (_, pR0, _): (i64, i64, i64),
     (_, c0, _): (i64, Tok, i64),
     (_, r, _): (i64, i64, i64),
 ) -> Result<Tree,__lalrpop_util::ParseError<i64,Tok,u64>>
 {
-    { probe("T#0", 0, 'R', pR0); fallible("T#0", l, r, vec![Tree::from(c0)]) }
+    fallible("T#0", l, r, vec![Tree::from(c0)])
 }
 
 #[allow(clippy::too_many_arguments, clippy::needless_lifetimes, clippy::just_underscores_and_digits, clippy::extra_unused_type_parameters)]
@@ -677,11 +675,10 @@ fn __action6<
     clippy::just_underscores_and_digits, clippy::clone_on_copy, clippy::unit_arg)]
 fn __action7<
 >(
-    __0: (i64, i64, i64),
-    __1: (i64, Tree, i64),
-    __2: (i64, Tok, i64),
-    __3: (i64, Tree, i64),
-    __4: (i64, i64, i64),
+    __0: (i64, Tree, i64),
+    __1: (i64, Tok, i64),
+    __2: (i64, Tree, i64),
+    __3: (i64, i64, i64),
 ) -> Result<Tree,__lalrpop_util::ParseError<i64,Tok,u64>>
 {
     let __start0 = __0.0.clone();
@@ -697,7 +694,6 @@ fn __action7<
         __1,
         __2,
         __3,
-        __4,
     )
 }
 
@@ -727,9 +723,8 @@ fn __action8<
     clippy::just_underscores_and_digits, clippy::clone_on_copy, clippy::unit_arg)]
 fn __action9<
 >(
-    __0: (i64, i64, i64),
-    __1: (i64, Tok, i64),
-    __2: (i64, i64, i64),
+    __0: (i64, Tok, i64),
+    __1: (i64, i64, i64),
 ) -> Result<Tree,__lalrpop_util::ParseError<i64,Tok,u64>>
 {
     let __start0 = __0.0.clone();
@@ -743,7 +738,6 @@ fn __action9<
         __temp0,
         __0,
         __1,
-        __2,
     )
 }
 
@@ -782,26 +776,18 @@ fn __action11<
     __2: (i64, Tree, i64),
 ) -> Result<Tree,__lalrpop_util::ParseError<i64,Tok,u64>>
 {
-    let __start0 = __0.0.clone();
-    let __end0 = __0.0.clone();
-    let __start1 = __2.2.clone();
-    let __end1 = __2.2.clone();
+    let __start0 = __2.2.clone();
+    let __end0 = __2.2.clone();
     let __temp0 = __action5(
         &__start0,
         &__end0,
     );
     let __temp0 = (__start0, __temp0, __end0);
-    let __temp1 = __action5(
-        &__start1,
-        &__end1,
-    );
-    let __temp1 = (__start1, __temp1, __end1);
     __action7(
-        __temp0,
         __0,
         __1,
         __2,
-        __temp1,
+        __temp0,
     )
 }
 
@@ -832,24 +818,16 @@ fn __action13<
     __0: (i64, Tok, i64),
 ) -> Result<Tree,__lalrpop_util::ParseError<i64,Tok,u64>>
 {
-    let __start0 = __0.0.clone();
-    let __end0 = __0.0.clone();
-    let __start1 = __0.2.clone();
-    let __end1 = __0.2.clone();
+    let __start0 = __0.2.clone();
+    let __end0 = __0.2.clone();
     let __temp0 = __action5(
         &__start0,
         &__end0,
     );
     let __temp0 = (__start0, __temp0, __end0);
-    let __temp1 = __action5(
-        &__start1,
-        &__end1,
-    );
-    let __temp1 = (__start1, __temp1, __end1);
     __action9(
-        __temp0,
         __0,
-        __temp1,
+        __temp0,
     )
 }
 
